@@ -50,6 +50,7 @@ class State:
         self.axioms = []  # shared list of lemma instances (valid formulas)
         self.notes = []
         self.epoch = next(_epochs)  # one per root state (verification run of one parameter combination)
+        self.cleared = frozenset()  # memoised functions whose cache_clear() ran on this path (C08)
 
     # -- forking -----------------------------------------------------------------------
     def fork(self):
@@ -65,6 +66,7 @@ class State:
         s.axioms = self.axioms
         s.notes = self.notes
         s.epoch = self.epoch
+        s.cleared = self.cleared
         return s
 
     def assume(self, f):
@@ -120,6 +122,13 @@ class State:
                     dom=z3.Const("G0_%s_dom_e%d" % (name, self.epoch), z3.ArraySort(ks, B)),
                     val=z3.Const("G0_%s_val_e%d" % (name, self.epoch), z3.ArraySort(ks, vs)),
                     default=spec[3] if len(spec) > 3 else None)
+            elif spec[0] == "dict2":
+                # two-level defaultdict(dict): key -> (key -> value)
+                ks, vs = sort_of(spec[1]), sort_of(spec[2])
+                self.locs[name] = Container(
+                    "dict2", kt=spec[1], vt=spec[2],
+                    dom=z3.Const("G0_%s_dom_e%d" % (name, self.epoch), z3.ArraySort(ks, z3.ArraySort(ks, B))),
+                    val=z3.Const("G0_%s_val_e%d" % (name, self.epoch), z3.ArraySort(ks, z3.ArraySort(ks, vs))))
             elif spec[0] == "set":
                 ks = sort_of(spec[1])
                 self.locs[name] = Container("set", kt=spec[1], dom=z3.Const("G0_%s_e%d" % (name, self.epoch), z3.ArraySort(ks, B)))
